@@ -89,6 +89,55 @@ let handle (f : String.t array) : String.t =
        let wfok = wf_db db in
        String.concat "\t" ["ok"; pref0; show_entries vro; show_found wf_; show_reason wr; rf; rr;
                            show_found spec_in; show_found spec; field_of_bool wfok])
+  | "casev" ->
+    (* the same case with the comparator and the matcher of C10 (coq/Model/ResolveReal.v): fields as for case.
+       answer: ok, pref0, vro, walk found, walk reason, resolve found (or err:kind), resolve reason, designates_in,
+       designates, wf_db, real_domain, conv_names, real_names_ok (the last three for the names declared for the
+       requested product), then for the first flavor: find_latest, latest_tie, and - when the request names an
+       expression - select_latest (find_by_expr ...), expr_tie (otherwise - -).
+       Outside real_domain the walk and the resolution are err:Undefined. *)
+    let cfg0 = site_config (words f.(1)) [dec_str f.(2)] in
+    let cfg = if f.(3) = "-" then cfg0 else { cfg0 with cfg_vro = dec_vrocfg f.(3) } in
+    let o = { o_keep = bool_of_field f.(4); o_exact = bool_of_field f.(5); o_inexact = bool_of_field f.(6);
+              o_tags = words f.(8); o_posttags = words f.(9); o_productdir = false;
+              o_vnamed = bool_of_field f.(7) } in
+    let db = dec_db f.(10) in
+    let flavors = words f.(11) in
+    let depth = nat_of_int (int_of_string f.(12)) in
+    let rq = { rq_name = dec_str f.(13); rq_version = dec_opt f.(14); rq_expr = dec_opt f.(15) } in
+    let prev = dec_prev f.(16) in
+    let pref0 = show_entries (initial_preferred cfg) in
+    (match select_vro cfg o with
+     | Err k -> String.concat "\t" ["ok"; pref0; "err:" ^ err_name k]
+     | Ok vro ->
+       let f0 = (match flavors with x :: _ -> x | [] -> []) in
+       let (wf_, wr) = (match walk_real cfg db prev f0 depth vro rq with
+           | Err k -> ("err:" ^ err_name k, "-")
+           | Ok None -> ("-", "-")
+           | Ok (Some (p, r)) -> (show_found (Some p), show_reason (Some r))) in
+       let (rf, rr) = (match resolve_real cfg db o.o_keep prev flavors depth vro rq with
+           | Err k -> ("err:" ^ err_name k, "-")
+           | Ok None -> ("-", "-")
+           | Ok (Some (p, r)) -> (show_found (Some p), show_reason r)) in
+       let vr = classify rq in
+       let spec_in = designates_in vcmp_real vmatch_real cfg db rq.rq_name vr f0 vro in
+       let spec = designates vcmp_real vmatch_real cfg db flavors depth vro rq in
+       let names = names_of db rq.rq_name in
+       let x = (match rq.rq_version with
+           | Some v when is_expr v -> Some v
+           | Some (_ :: _) -> (match rq.rq_expr with Some x when is_expr x -> Some x | _ -> None)
+           | _ -> None) in
+       let (xm, xs) = (match x with
+           | Some x when real_domain db rq ->
+             (show_found (select_latest vcmp_real (find_by_expr vmatch_real db rq.rq_name x f0)),
+              show_found (expr_tie vcmp_real vmatch_real db rq.rq_name x f0))
+           | _ -> ("-", "-")) in
+       String.concat "\t" ["ok"; pref0; show_entries vro; wf_; wr; rf; rr;
+                           show_found spec_in; show_found spec; field_of_bool (wf_db db);
+                           field_of_bool (real_domain db rq); field_of_bool (conv_names names);
+                           field_of_bool (real_names_ok names);
+                           show_found (find_latest vcmp_real db rq.rq_name f0);
+                           show_found (latest_tie vcmp_real db rq.rq_name f0); xm; xs])
   | _ -> failwith "unknown op"
 
 let () = main_loop handle
